@@ -163,7 +163,11 @@ class SpecialFamily(Family):
         Ls = cover_categories(Ls, 16 if tier == "quick" else 60, rng)
         for li, L in enumerate(Ls):
             # covering design: every list gets two kinds, rotating
-            for K in ([kinds[li % len(kinds)], kinds[(li * 7 + 3) % len(kinds)]] if tier == "quick" else rng.sample(kinds, 4)):
+            # the second kind of every list is one under which move assignment between unequal
+            # allocators goes element by element (neither POCMA nor always-equal): those paths
+            # (block reused / replaced, fixed sizes carried over) are exercised on EVERY list
+            elementwise = [K_PMR, (1, 0, 1, 0, 1), (1, 0, 0, 0, 0), (0, 0, 1, 0, 0)]
+            for K in ([kinds[li % len(kinds)], elementwise[li % len(elementwise)]] if tier == "quick" else rng.sample(kinds, 4)):
                 scripts = []
                 for _ in range(self.nscripts * mult):
                     lines, st = gen.gen_special(L, K, rng, rng.randrange(6, 30))
